@@ -323,3 +323,24 @@ Proof.
         cbn [rbind]. rewrite drop_noop; [| exact Hf | left; lia | left; lia].
         cbn [rbind]. cbn [Z.add Z.sub Z.eqb negb orb Z.opp embed_ret fst snd]. destruct b; reflexivity.
 Qed.
+
+(** the array branch of _force_bin_existence (minimum first, then maximum; the first answer that is not None is returned)
+    is the model's force_array *)
+Lemma force_single_none fuel b v :
+  g_fw_force_bin_existence_single xarith fuel (embed b false) (Fin v) None =
+  g_fw_force_bin_existence_single xarith fuel (embed b false) (Fin v) (Some false).
+Proof. reflexivity. Qed.
+
+Theorem gen_force_min_max_is_model fuel b mn mx : 0 < f_w b -> (1 <= fuel)%nat ->
+  g_fw_force_min_max xarith fuel (embed b false) (Fin mn) (Fin mx) None =
+  Done (embed (fst (force_single (fst (force_single b mn false)) mx false)) false,
+        embed_ret (match snd (force_single b mn false) with
+                   | BNone => snd (force_single (fst (force_single b mn false)) mx false)
+                   | r => r end)).
+Proof.
+  intros Hw Hf. unfold g_fw_force_min_max. cbn [fisfinite xarith xfinite negb andb orb].
+  rewrite force_single_none, gen_force_single_is_model by assumption. cbn [rbind].
+  pose proof (force_single_covers b mn Hw) as HC. cbv zeta in HC. destruct HC as [_ [_ [_ Hw1]]].
+  rewrite force_single_none, gen_force_single_is_model; [| rewrite Hw1; exact Hw | exact Hf]. cbn [rbind].
+  destruct (snd (force_single b mn false)); reflexivity.
+Qed.
